@@ -209,22 +209,24 @@ type Summary struct {
 	Notes       []string          `json:"notes"`
 	WallS       float64           `json:"wall_s"`
 	Done        bool              `json:"done"`
+	Digests     map[string]string `json:"digests,omitempty"` // transcript chunk digests (must agree across build variants)
 }
 
 type Ctx struct {
 	Summary
-	NShards  int
-	Verbose  bool // replay mode: print everything
-	distinct map[uint64]struct{}
-	idx      int64
-	last     []byte // mmap'd last-case buffer
-	hashPath string
-	start    time.Time
-	classSmp map[string]bool
+	NShards   int
+	Verbose   bool // replay mode: print everything
+	DumpChunk int  // transcript chunk to print (-1: none)
+	distinct  map[uint64]struct{}
+	idx       int64
+	last      []byte // mmap'd last-case buffer
+	hashPath  string
+	start     time.Time
+	classSmp  map[string]bool
 }
 
 func NewCtx(prop, tier string, seed int64, shard, nshards int, outBase string) *Ctx {
-	c := &Ctx{NShards: nshards, distinct: map[uint64]struct{}{}, start: time.Now(), classSmp: map[string]bool{}}
+	c := &Ctx{NShards: nshards, DumpChunk: -1, distinct: map[uint64]struct{}{}, start: time.Now(), classSmp: map[string]bool{}}
 	c.Prop, c.Tier, c.Seed, c.Shard = prop, tier, seed, shard
 	c.Classes = map[string]int64{}
 	c.Counters = map[string]int64{}
@@ -461,6 +463,19 @@ func Canonical(d *decimal.Decimal) string {
 		if e := d.MantExp(nil); e != 0 {
 			return fmt.Sprintf("zero/infinity has MantExp %d", e)
 		}
+		// a zero or infinity carries only a sign: whatever it held before must not show
+		want := "0"
+		switch {
+		case d.IsInf() && d.Signbit():
+			want = "-Inf"
+		case d.IsInf():
+			want = "+Inf"
+		case d.Signbit():
+			want = "-0"
+		}
+		if got := d.Text('g', -1); got != want {
+			return fmt.Sprintf("zero/infinity prints as %q, want %q (leftover state shows)", got, want)
+		}
 		return ""
 	}
 	if len(m) == 0 {
@@ -486,4 +501,83 @@ func Canonical(d *decimal.Decimal) string {
 		return fmt.Sprintf("MinPrec %d exceeds Prec %d (digits beyond the precision)", mp, d.Prec())
 	}
 	return ""
+}
+
+// ------------------------------------------------------------ raw snapshots
+
+// Raw is a cheap bit-level snapshot of a Decimal (no big.Int conversion).
+type Raw struct {
+	Class int8 // 0 zero, 1 finite (or malformed), 2 inf
+	Neg   bool
+	Prec  uint
+	Mode  int
+	Acc   int
+	Exp   int32
+	W     []decimal.Word
+}
+
+func RawOf(d *decimal.Decimal) Raw {
+	r := Raw{Neg: d.Signbit(), Prec: d.Prec(), Mode: int(d.Mode()), Acc: int(d.Acc())}
+	m, e := d.BitsExp()
+	r.Exp = e // for zeros and infinities this is a leftover field: recorded, never compared
+	switch {
+	case d.IsInf():
+		r.Class = 2
+	case d.IsZero():
+		r.Class = 0
+	default:
+		r.Class = 1
+		r.W = append([]decimal.Word(nil), m...)
+	}
+	return r
+}
+
+func (a Raw) Same(b Raw) bool {
+	if a.Class != b.Class || a.Neg != b.Neg || a.Prec != b.Prec || a.Mode != b.Mode || a.Acc != b.Acc {
+		return false
+	}
+	if a.Class != 1 {
+		return true
+	}
+	if a.Exp != b.Exp || len(a.W) != len(b.W) {
+		return false
+	}
+	for i := range a.W {
+		if a.W[i] != b.W[i] {
+			return false
+		}
+	}
+	return true
+}
+
+// Val converts the snapshot to an exact value.
+func (a Raw) Val() oracle.Val {
+	switch a.Class {
+	case 0:
+		return oracle.Val{Form: oracle.Zero, Neg: a.Neg}
+	case 2:
+		return oracle.Val{Form: oracle.Inf, Neg: a.Neg}
+	}
+	w := make([]uint, len(a.W))
+	for i, x := range a.W {
+		w[i] = uint(x)
+	}
+	return oracle.Val{Form: oracle.Finite, Neg: a.Neg, Coef: oracle.FromWords(w), Exp: int64(a.Exp) - 19*int64(len(a.W))}
+}
+
+// LeadExp is the decimal exponent of the leading digit (finite values).
+func (a Raw) LeadExp() int64 { return int64(a.Exp) }
+
+func (a Raw) String() string {
+	sg := "+"
+	if a.Neg {
+		sg = "-"
+	}
+	switch a.Class {
+	case 0:
+		return fmt.Sprintf("{%s0 prec=%d mode=%d acc=%d}", sg, a.Prec, a.Mode, a.Acc)
+	case 2:
+		return fmt.Sprintf("{%sInf prec=%d mode=%d acc=%d}", sg, a.Prec, a.Mode, a.Acc)
+	}
+	return fmt.Sprintf("{%s0.%v e%d prec=%d mode=%d acc=%d}", sg, a.W, a.Exp, a.Prec, a.Mode, a.Acc)
 }
